@@ -1443,6 +1443,7 @@ Fixpoint go_last_index_byte (c : N) (s : bstr) : Z :=
               | i => Z.succ i
               end
   end.
+Definition go_format_bool (x : bool) : bstr := if x then [116; 114; 117; 101] else [102; 97; 108; 115; 101].
 Definition go_has_suffix (suf s : bstr) : bool := is_prefix (rev suf) (rev s).
 (* strings.Replace(s, old, new, -1) for a non-empty old: non-overlapping matches, left to right *)
 Fixpoint go_replace_from (fuel : nat) (old new s : bstr) : bstr :=
